@@ -35,7 +35,7 @@ _counters = {"schedules": 0, "cap_hits": 0, "tsan_runs": 0}
 
 
 def budget(tier):
-    return 3000 if tier == "quick" else 60000
+    return 4000 if tier == "quick" else 80000
 
 
 def sched_cap(tier):
@@ -72,9 +72,48 @@ def big_case(draw):
     return c
 
 
+@st.composite
+def order_only_motif(draw):
+    """A rule with a recorded must-follow (order-only) key that is recomputed with a CHANGED value in
+    a later build while nothing the rule consumes changes: whether the rule's scan reaches that key
+    before or after it completed depends on the completion order."""
+    keys = draw(em.key_pool(6))
+    l1, l2, k, x, r, top = keys
+    pre = lambda: draw(em._PREFIX)
+    rules = [em.leaf_rule(l1, pre()), em.leaf_rule(l2, pre())]
+    mk = lambda key, ins: {"key": key, "leaf": False, "prefix": pre(), "ver": 0, "mod": draw(st.sampled_from([3, 251])),
+                           "salt": draw(st.integers(0, 3)), "force": draw(st.integers(0, 5)) == 0, "art": False,
+                           "ins": [{"key": kk, "mode": m, "w": draw(st.integers(1, 3)), "src": -1, "mod": 1, "rem": 0}
+                                   for kk, m in ins], "discs": []}
+    rules.append(mk(k, [(l1, "r")]))
+    rules.append(mk(x, [(l2, "r")]))
+    r_ins = draw(st.permutations([(x, "r"), (k, "m")]))
+    rules.append(mk(r, list(r_ins)))
+    top_ins = draw(st.permutations([(k, draw(st.sampled_from(["r", "m"]))), (x, "r"), (r, "r")]))
+    rules.append(mk(top, list(top_ins)))
+    # Top and X carry an artifact: tampering with it makes the rule re-run (X to an identical value)
+    # so that in the second build Top's task requests K, X and R at once while K and X are computing
+    for rr in rules:
+        if rr["key"] in (top, x):
+            rr["art"] = True
+            rr["force"] = False
+    ops = [{"op": "build", "key": top, "mode": "idle", "choices": draw(em._CHOICES)}]
+    for _ in range(draw(st.integers(1, 3))):
+        ops.append({"op": "set", "key": l1, "v": draw(st.integers(0, 5))})
+        if draw(st.integers(0, 3)) != 0:
+            ops.append({"op": "tamper", "key": top, "v": "aa"})
+        if draw(st.integers(0, 3)) != 0:
+            ops.append({"op": "tamper", "key": x, "v": "aa"})
+        if draw(st.integers(0, 3)) == 0:
+            ops.append({"op": "set", "key": l2, "v": draw(st.integers(0, 5))})
+        ops.append({"op": "build", "key": draw(st.sampled_from([top, top, r])), "mode": draw(st.sampled_from(["idle", "mixed"])),
+                    "choices": draw(em._CHOICES)})
+    return {"db": draw(st.booleans()), "front": "cxx", "rules": rules, "init": {l1: 0, l2: 0}, "ops": ops[:14], "kind": "enum"}
+
+
 def strategy(tier):
     _TIER["v"] = tier
-    return st.one_of(small_case(), small_case(), big_case())
+    return st.one_of(small_case(), small_case(), small_case(), order_only_motif(), big_case(), big_case())
 
 
 class Known:
